@@ -81,11 +81,33 @@ def run(tier, replay=None):
             raise vlib.ToolError("deviation %s no longer violates P_C03 in the model (vacuous property?)" % d)
     vlib.log("all %d deviation switches produce counterexamples" % len(ALL_DEVIATIONS))
 
+    # --replay <violation file written by an earlier run>: same case, same concretisation, verbose
+    if replay:
+        with open(replay) as f:
+            v = json.load(f)
+        if "case" not in v:
+            raise vlib.ToolError("%s is not a C03 violation file" % replay)
+        one = os.path.join(wd, "one.ndjson")
+        with open(one, "w") as f:
+            f.write(json.dumps({"c": v["case"], "adm": v["adm"], "code": v["code"]}) + "\n")
+        backend = "h2c" if os.path.basename(replay).startswith("h2c_") else "h1"
+        out = vlib.run_harness(bins["replay_framing"], ["--seed", str(v.get("seed", 1)), "--lanes", "1", "--backend", backend,
+                                                        "--force-index", str(v.get("index", 0)), "--force-variant", str(v.get("variant", 0))],
+                               stdin_path=one, timeout=300)
+        for o in out:
+            if o.get("kind") == "replayed":
+                print(json.dumps(o, indent=1))
+            if o.get("kind") == "violation":
+                rep.violation(o["class"], "%s (replayed) case=%s" % (o["class"], json.dumps(o.get("case"))), o, name="replayed_%s.json" % o["class"].replace(":", "_"))
+        rep.cov["traces_validated_against_impl"] = 1
+        rep.cov["evaluations"] = 1
+        rep.cov["rule"] = "single replay of " + replay
+        rep.add_samples([v["case"]], 1)
+        rep.finish()
+
     # 3. generator (prediction with the open deviations on)
     beh = os.path.join(wd, "cases.ndjson")
-    if replay:
-        beh = replay
-    else:
+    if True:
         with open(beh, "w") as f:
             g = vlib.tlc("HttpFraming", write_cfg(wd, "gen.cfg", n, devs, True, "EmitCase"), PID, workers=workers,
                          timeout=1500, want_replay=True, replay_sink=lambda o: f.write(json.dumps(o) + "\n"))
@@ -141,7 +163,8 @@ def run(tier, replay=None):
                        "shapes x 6 Host shapes x header-token sequences x 5 chunked-body shapes; H2: 18 pseudo-header shapes x "
                        "header-token sequences x 5 DATA shapes x 7 trailer shapes), each concretised with seeded spellings / "
                        "segmentation / pipelined-or-sequential sentinel and sent to a live frontend of a real worker; "
-                       "distinct_nontrivial = distinct (case, observed outcome class) pairs" % n)
+                       "distinct_nontrivial = distinct (case, observed outcome class) pairs whose case differs from the plain valid "
+                       "skeleton in at least one token" % n)
     rep.assumptions += [
         "the quantifier 'all byte strings' is covered through the token grammar x its concretisations only; a byte-level parser quirk that no token exercises is out of reach (fuzzing's territory)",
         "the recording backend stands for 'any RFC 9112 conforming backend': its reader is strict (every MAY-reject is a reject), so anything it cannot read, or reads differently from sozu, is reported",
